@@ -4,6 +4,7 @@ import (
 	"fmt"
 	"os"
 	"runtime"
+	"strings"
 	"syscall"
 	"unsafe"
 
@@ -131,14 +132,51 @@ func asUser(uid, gid int, f func()) error {
 	return <-errc
 }
 
+// permFileModes is the alphabet of modes given to regular files in the
+// non-administrator part (everything is owned by root, the asking user is in
+// the "others" class): another owner's private file, a write-only drop file
+// and a file with no bits at all; thorough adds an owner-write-only file and
+// a file that others may execute but not read.
+func permFileModes(tier string) []uint32 {
+	if tier == "thorough" {
+		return []uint32{0o10600, 0o10622, 0o10000, 0o10200, 0o10711}
+	}
+
+	return []uint32{0o10600, 0o10622, 0o10000}
+}
+
+// permModeNames lists the file modes of the tier for the bound text.
+func permModeNames(tier string) string {
+	var l []string
+	for _, m := range permFileModes(tier) {
+		l = append(l, fmt.Sprintf("%04o", m&0o7777))
+	}
+
+	return strings.Join(l, "/")
+}
+
 // permScenarios: small trees with one directory whose permission bits are
-// 0000, 0111 or 0444 (everything is owned by root).
-func permScenarios() [][]ent {
+// 0000, 0111 or 0444 (everything is owned by root), then trees whose regular
+// files are reachable but not readable.
+//
+// Lesson (round 9): the permission a call needs is part of what it answers.
+// Stat needs search permission on the directories of the path and NOTHING on
+// the entry itself; opening needs read permission on the entry. A helper that
+// is specified by "what Stat and ReadDir imply" may open only what ReadDir
+// would open (a directory) - one that reaches its answer through a handle
+// (open, then File.Stat) answers "permission denied" for every entry the user
+// can see but not read. That is invisible to the administrator and on trees
+// whose files are all 0644, so the non-administrator pass has to hold entries
+// that can be Stat'ed but not read: regular files, empty and not, at the top
+// and below a directory, behind a symbolic link, and below directories that
+// are themselves searchable-only / readable-only / closed.
+func permScenarios(tier string) [][]ent {
 	f := func(n string) ent { return ent{Name: n, Kind: "f"} }
 	no := func(n string) ent { return ent{Name: n, Kind: "-"} }
 	d := func(n string, mode uint32, kids ...ent) ent {
 		return ent{Name: n, Kind: "d", Kids: kids, Mode: mode}
 	}
+	fm := func(n, kind string, mode uint32) ent { return ent{Name: n, Kind: kind, Mode: mode} }
 
 	var out [][]ent
 
@@ -157,35 +195,100 @@ func permScenarios() [][]ent {
 		)
 	}
 
-	return out
-}
+	for _, m := range permFileModes(tier) {
+		out = append(out,
+			// unreadable files, with content and empty, below a directory and at the top
+			[]ent{d("a", 0, fm("a", "f", m), fm("b", "e", m)), fm("b", "f", m)},
+			// unreadable empty file at the top and a symbolic link to it
+			[]ent{fm("a", "e", m), {Name: "b", Kind: "s"}},
+			// unreadable file with content behind a symbolic link; the link is the first name
+			[]ent{{Name: "a", Kind: "s"}, fm("b", "f", m)},
+		)
+	}
 
-func permLabel(es []ent) (which, mode string) {
-	for _, e := range es {
-		if e.Mode != 0 {
-			return "top", fmt.Sprintf("%04o", e.Mode&0o7777)
+	// unreadable files below a directory that is closed / searchable only /
+	// readable only (what can be Stat'ed differs in each) and an unreadable
+	// empty file of the other mode beside it (thorough: every pair of modes)
+	for _, dm := range []uint32{0o10000, 0o10111, 0o10444} {
+		pairs := [][2]uint32{{0o10600, 0o10622}}
+		if tier == "thorough" {
+			pairs = nil
+
+			for _, m := range permFileModes(tier) {
+				for _, m2 := range permFileModes(tier) {
+					pairs = append(pairs, [2]uint32{m, m2})
+				}
+			}
 		}
 
-		for _, k := range e.Kids {
-			if k.Mode != 0 {
-				return "nested", fmt.Sprintf("%04o", k.Mode&0o7777)
-			}
+		for _, mm := range pairs {
+			out = append(out,
+				[]ent{d("a", dm, fm("a", "f", mm[0]), fm("b", "e", mm[0])), fm("b", "e", mm[1])},
+			)
 		}
 	}
 
-	return "none", ""
+	return out
+}
+
+// permLabel names what is restricted in a scenario for the signatures: the
+// position and kind of the first restricted entry, and the distinct modes of
+// the tree in order of appearance.
+func permLabel(es []ent) (which, mode string) {
+	var modes []string
+
+	note := func(pos string, e ent) {
+		if e.Mode == 0 {
+			return
+		}
+
+		if which == "" {
+			which = pos
+
+			if e.Kind != "d" {
+				which += "-file"
+			}
+		}
+
+		m := fmt.Sprintf("%04o", e.Mode&0o7777)
+		if e.Kind != "d" {
+			m = "f" + m
+		}
+
+		for _, x := range modes {
+			if x == m {
+				return
+			}
+		}
+
+		modes = append(modes, m)
+	}
+
+	for _, e := range es {
+		note("top", e)
+
+		for _, k := range e.Kids {
+			note("nested", k)
+		}
+	}
+
+	if which == "" {
+		return "none", ""
+	}
+
+	return which, strings.Join(modes, "+")
 }
 
 // runPerm is the non-administrator part: MemFS seen by an ordinary user versus
 // the kernel under setfsuid/setfsgid. Returns a harness error text ("" if the
 // sandbox behaved).
-func runPerm(c *checker) string {
+func runPerm(c *checker, tier string) string {
 	if os.Geteuid() != 0 {
 		return "non-administrator part needs root (setfsuid)"
 	}
 
 	c.user = "nonadmin"
-	scen := permScenarios()
+	scen := permScenarios(tier)
 
 	// probe: the sandbox must enforce DAC for the switched thread
 	probe := []ent{{Name: "a", Kind: "d", Mode: 0o10000, Kids: []ent{{Name: "a", Kind: "f"}, {Name: "b", Kind: "-"}}}, {Name: "b", Kind: "-"}}
